@@ -138,3 +138,17 @@ Proof.
   - rewrite unlink_comm. reflexivity.
   - rewrite IH1. apply IH2.
 Qed.
+
+(* ------------------------------------------------------------------------------------------ *)
+(** * [GlobalScope.unambiguize]: variable numbers do not depend on the order the names arrive in, because
+      the list is sorted first — and would depend on it otherwise *)
+Theorem unambiguize_sorted_invariant : forall b l l', Permutation l l' ->
+  unambiguize_numbers b l = unambiguize_numbers b l'.
+Proof. intros b l l' P. unfold unambiguize_numbers. rewrite (sorted_perm_invariant l l' P). reflexivity. Qed.
+
+Theorem unambiguize_unsorted_refuted : exists b order order', Permutation order order' /\
+  unambiguize_numbers_in_order b order <> unambiguize_numbers_in_order b order'.
+Proof.
+  exists 0%nat, [[120; 88]; [121; 89]], [[121; 89]; [120; 88]].   (* "xX", "yY" *)
+  split; [apply perm_swap|]. vm_compute. intros H. discriminate H.
+Qed.
